@@ -483,6 +483,160 @@ fn g_path(it: &mut Interner, p: &[PathSegment]) -> String {
     })
 }
 
+
+// ------------------------------------------------------------ variant schema
+/// Merged objects, flattened fields (SimpleObject field and #[Object] method),
+/// a generic object with concrete names, a union and an interface: the types
+/// whose resolver is reached through another Rust type.  Responses with and
+/// without extensions are compared and the recorded hook trace is judged by
+/// the lifecycle checker (no executor model for this stream).
+mod var {
+    use async_graphql::*;
+
+    #[derive(SimpleObject, Clone)]
+    pub struct Inner {
+        pub x: i32,
+        pub y: Option<String>,
+    }
+    #[derive(SimpleObject, Clone)]
+    pub struct Other {
+        pub x: i32,
+        pub k: bool,
+    }
+    #[derive(SimpleObject, Clone)]
+    pub struct Flat {
+        #[graphql(flatten)]
+        pub inner: Inner,
+        pub z: i32,
+        pub items: Vec<Inner>,
+        pub opt_items: Option<Vec<Option<Inner>>>,
+    }
+    #[derive(SimpleObject, Clone)]
+    #[graphql(concrete(name = "BoxInt", params(i32)), concrete(name = "BoxInner", params(Inner)))]
+    pub struct Bx<T: OutputType> {
+        pub v: T,
+        pub vs: Vec<T>,
+    }
+    pub struct Of;
+    #[Object]
+    impl Of {
+        #[graphql(flatten)]
+        async fn inner(&self) -> Inner {
+            Inner { x: 7, y: Some("f".into()) }
+        }
+        async fn w(&self) -> i32 {
+            3
+        }
+        async fn bad(&self) -> Result<i32> {
+            Err("boom".into())
+        }
+    }
+    #[derive(Union, Clone)]
+    pub enum Shape {
+        Flat(Flat),
+        Inner(Inner),
+    }
+    #[derive(Interface, Clone)]
+    #[graphql(field(name = "x", ty = "&i32"))]
+    pub enum HasX {
+        Inner(Inner),
+        Other(Other),
+    }
+    fn flat(n: i32) -> Flat {
+        Flat {
+            inner: Inner { x: n, y: None },
+            z: n + 1,
+            items: vec![Inner { x: 1, y: Some("a".into()) }, Inner { x: 2, y: None }],
+            opt_items: Some(vec![None, Some(Inner { x: 3, y: None })]),
+        }
+    }
+    #[derive(Default)]
+    pub struct Qa;
+    #[Object]
+    impl Qa {
+        async fn a(&self) -> i32 {
+            1
+        }
+        async fn flat(&self) -> Flat {
+            flat(10)
+        }
+        async fn flats(&self) -> Vec<Flat> {
+            vec![flat(1), flat(2)]
+        }
+        async fn of(&self) -> Of {
+            Of
+        }
+        async fn of_opt(&self) -> Option<Of> {
+            Some(Of)
+        }
+    }
+    #[derive(Default)]
+    pub struct Qb;
+    #[Object]
+    impl Qb {
+        async fn b(&self) -> Option<i32> {
+            None
+        }
+        async fn fail(&self) -> Result<Option<i32>> {
+            Err("boom".into())
+        }
+        async fn shapes(&self) -> Vec<Shape> {
+            vec![Shape::Flat(flat(5)), Shape::Inner(Inner { x: 9, y: None })]
+        }
+        async fn hasx(&self) -> Vec<HasX> {
+            vec![HasX::Inner(Inner { x: 4, y: None }), HasX::Other(Other { x: 5, k: true })]
+        }
+        async fn bx(&self) -> Bx<i32> {
+            Bx { v: 1, vs: vec![2, 3] }
+        }
+        async fn bxi(&self) -> Option<Bx<Inner>> {
+            Some(Bx { v: Inner { x: 1, y: None }, vs: vec![] })
+        }
+    }
+    #[derive(MergedObject, Default)]
+    pub struct Mq(pub Qa, pub Qb);
+    #[derive(Default)]
+    pub struct Ma;
+    #[Object]
+    impl Ma {
+        async fn set_a(&self) -> i32 {
+            1
+        }
+    }
+    #[derive(Default)]
+    pub struct Mb;
+    #[Object]
+    impl Mb {
+        async fn set_b(&self) -> Flat {
+            flat(0)
+        }
+    }
+    #[derive(MergedObject, Default)]
+    pub struct Mm(pub Ma, pub Mb);
+    pub type VarSchema = Schema<Mq, Mm, EmptySubscription>;
+    pub fn build() -> SchemaBuilder<Mq, Mm, EmptySubscription> {
+        Schema::build(Mq::default(), Mm::default(), EmptySubscription).register_output_type::<HasX>()
+    }
+    pub const QUERIES: &[&str] = &[
+        "{ a b __typename }",
+        "{ flat { x y z items { x y } optItems { x } __typename } }",
+        "{ flats { x z ... on Flat { y } items { __typename x } } }",
+        "{ of { x y w } ofOpt { w x bad } a }",
+        "{ of { bad } }",
+        "{ fail a }",
+        "{ shapes { __typename ... on Flat { x z items { x } } ... on Inner { x y } } }",
+        "{ hasx { x __typename ... on Inner { y } ... on Other { k } ... on HasX { k2: x } } }",
+        "{ bx { v vs } bxi { v { x } vs { x } } }",
+        "{ ... on Mq { a } ...F } fragment F on Mq { k: b flat { ...G } } fragment G on Flat { x z }",
+        "query Q { a } query R { b }",
+        "{ nope }",
+        "{ a ",
+        "mutation { setA setB { x z items { x } } }",
+        "mutation { k1: setA k2: setA }",
+        "{ a @include(if: true) flat @skip(if: false) { x @include(if: true) } }",
+    ];
+}
+
 // ------------------------------------------------------------ printers
 fn g_segs(it: &mut Interner, p: &[Seg]) -> String {
     g_list(p.iter(), |s| match s {
@@ -740,6 +894,49 @@ fn main() {
             );
             writeln!(out, "CASE\t(fam, {gworld}, {gdoc}, {}, {}, {gcfg}, {gimpl})\t{meta}", g_opt(job.opname.as_ref(), |n| it.n(n)), g_vars(&mut it, &job.vars)).unwrap();
             case_no += 1;
+        }
+    }
+
+    // variant schema stream: fixed queries x {normal, introspection-only query} x k = 0..3
+    {
+        let vs: Vec<var::VarSchema> = (0..4)
+            .map(|k| {
+                let mut b = var::build();
+                for i in 0..k {
+                    b = b.extension(RecFactory(i));
+                }
+                b.finish()
+            })
+            .collect();
+        for (qi, qtext) in var::QUERIES.iter().enumerate() {
+            for intro in [false, true] {
+                if intro && qtext.starts_with("mutation") {
+                    continue; // the EmptyMutation class is covered by the family stream
+                }
+                let mut jsons: Vec<String> = vec![];
+                for k in 0..4 {
+                    let mut req = Request::new(*qtext);
+                    if qi == 10 {
+                        req = req.operation_name("R");
+                    }
+                    if intro {
+                        req = req.only_introspection();
+                    }
+                    LOG.lock().unwrap().clear();
+                    let resp = block_on(vs[k].execute(req));
+                    let hooks = std::mem::take(&mut *LOG.lock().unwrap());
+                    let json = format!("{} cc={:?} headers={:?}", serde_json::to_string(&resp).unwrap(), (resp.cache_control.public, resp.cache_control.max_age), resp.http_headers);
+                    jsons.push(json.clone());
+                    let same = json == jsons[0];
+                    let meta = format!(
+                        "{{\"text\":{},\"impl\":{},\"nontrivial\":{}}}",
+                        jstr(&format!("[variant k={k}{}] {}", if intro { " introspection-only" } else { "" }, qtext)),
+                        jstr(&format!("{} hooks={} same_as_k0={}", json.chars().take(200).collect::<String>(), hooks.len(), same)),
+                        k > 0
+                    );
+                    writeln!(out, "VAR\t({}%N, {}, {})\t{meta}", k, g_bool(same), g_list(hooks.iter(), |e| g_ev(&mut it, e))).unwrap();
+                }
+            }
         }
     }
     writeln!(out, "NAMES\t\t{}", serde_json::to_string(&it.names).unwrap()).unwrap();
